@@ -8,6 +8,10 @@
 #include <shark/Algorithms/GradientDescent/CG.h>
 #include <shark/Algorithms/GradientDescent/TrustRegionNewton.h>
 #include <shark/Algorithms/DirectSearch/CMA.h>
+#include <shark/Algorithms/DirectSearch/CMSA.h>
+#include <shark/Algorithms/DirectSearch/ElitistCMA.h>
+#include <shark/Algorithms/DirectSearch/CrossEntropyMethod.h>
+#include <shark/Algorithms/DirectSearch/SimplexDownhill.h>
 #include <shark/ObjectiveFunctions/Benchmarks/Rosenbrock.h>
 #include <shark/ObjectiveFunctions/Benchmarks/Ellipsoid.h>
 #include "common.hpp"
@@ -20,6 +24,9 @@
 #include <src/Algorithms/GradientDescent/CG.cpp>
 #include <src/Algorithms/GradientDescent/Rprop.cpp>
 #include <src/Algorithms/DirectSearch/CMA.cpp>
+#include <src/Algorithms/DirectSearch/CMSA.cpp>
+#include <src/Algorithms/DirectSearch/ElitistCMA.cpp>
+#include <src/Algorithms/DirectSearch/CrossEntropyMethod.cpp>
 #include <src/Algorithms/GradientDescent/TrustRegionNewton.cpp>
 #include <src/Models/RBFLayer.cpp>
 
@@ -35,8 +42,10 @@ template<class V> std::string vecStr(V const& v){
 template<class Opt> void configure(Opt&){}
 void configure(SteepestDescent<>& o){ o.setLearningRate(0.0005); o.setMomentum(0.25); }
 
-// k steps, write, read into a fresh optimizer that was initialised on the same objective
-// from another starting point, then compare the next iterates exactly
+// k steps, write; the TARGET was initialised on the same objective from another point and has taken two steps
+// of its own (a used optimizer); the archive is read twice; the archive of the restored optimizer must be the
+// archive of the original byte for byte; then the next three iterates are compared exactly. For the
+// optimizers that draw from the global generator its state is rewound before the restored one continues.
 template<class Opt, class F>
 std::string continues(std::string const& label, F& f, std::size_t warm, bool binary, bool reseed = false){
 	RealVector start(3); start(0) = -1.5; start(1) = 0.5; start(2) = 2.0;
@@ -47,8 +56,13 @@ std::string continues(std::string const& label, F& f, std::size_t warm, bool bin
 	configure(a);
 	a.init(f, start);
 	for(std::size_t i = 0; i != warm; ++i) a.step(f);
-	b.init(f, other);
-	c18::roundTrip(a, b, binary);
+	std::ostringstream rngAfterWarm;
+	if(reseed) rngAfterWarm << random::globalRng;
+	b.init(f, other); b.step(f); b.step(f);
+	std::string bytesA = c18::bytes(a, binary);
+	c18::load(bytesA, b, binary); c18::load(bytesA, b, binary);
+	std::string bytesB = c18::bytes(b, binary);
+	if(reseed){ std::istringstream is(rngAfterWarm.str()); is >> random::globalRng; }
 	std::string A, B;
 	std::ostringstream rngState;
 	if(reseed) rngState << random::globalRng;
@@ -58,8 +72,9 @@ std::string continues(std::string const& label, F& f, std::size_t warm, bool bin
 	// (text archives cannot represent inf/nan: boost's text_iarchive fails with "input stream error";
 	//  the generator keeps the iterates finite, a non-finite state is reported as such)
 	if(A.find("inf") != std::string::npos || A.find("nan") != std::string::npos) return "obj " + label + " non-finite-state";
-	if(A == B) return "obj " + label + " same";
-	return "obj " + label + " differs original{" + A.substr(0, 300) + "} restored{" + B.substr(0, 300) + "} !oracle next-iterates-differ";
+	if(A != B) return c18::differs(label, "next-iterates-differ", A, B);
+	if(bytesA != bytesB) return c18::differs(label, "rewritten-archive-differs", binary ? "(binary)" : bytesA, binary ? "(binary)" : bytesB);
+	return "obj " + label + " same";
 }
 }
 
@@ -78,5 +93,9 @@ std::string c18::runOptimizer(std::string const& label, bool binary){
 	if(base == "CG") return continues<CG<> >(label, rosen, warm, binary);
 	if(base == "TrustRegionNewton") return continues<TrustRegionNewton>(label, rosen, warm, binary);
 	if(base == "CMA") return continues<CMA>(label, elli, warm, binary, true);
+	if(base == "CMSA") return continues<CMSA>(label, elli, warm, binary, true);
+	if(base == "ElitistCMA") return continues<ElitistCMA>(label, elli, warm, binary, true);
+	if(base == "CrossEntropyMethod") return continues<CrossEntropyMethod>(label, elli, warm, binary, true);
+	if(base == "SimplexDownhill") return continues<SimplexDownhill>(label, rosen, warm, binary);
 	return "bad-op";
 }
